@@ -21,12 +21,14 @@ ASSUMPTIONS = {
     "A_R": "residual closure: well-formed, one segment per operation",
     "A_E": "apply: well-formed, one segment per operation, one value per target position",
     "A_X": "ExactSizeIterator::len is exact",
+    "A_B": "the closure passed to build() leaves the shared builder state well-formed and returns variables of that builder",
     "A_L": "lax Functor/Optic user methods return label lists determined by their arguments and well-formed lax diagrams",
     "A_OF": "the optic (map_object, map_operations) satisfies the functor contract A_F1/A_F2 when it is applied "
             "to a whole diagram through define_map_arrow (functoriality of the optic is not decided)",
     "A_DYN": "DynFunctor (a lax functor wrapped for the strict machinery) satisfies the strict functor contract, "
              "given the lax functor's documented consistency of map_operation with map_object",
     "A_O": "optic generators: fwd : F(A) -> F(B)●M and rev : M●R(B) -> R(A), as stated by the optic's two debug_assert_eq!",
+    "A_B": "the closure passed to build() leaves the shared builder state well-formed and returns variables of that builder",
     "A_L": "lax Functor::map_object/map_operation are consistent (doc: not checked, may panic)",
 }
 
@@ -193,6 +195,16 @@ def h_generic_closure(I, st, fr, e, c, a):
     if tyd["k"] in ("tuple", "adt"):
         # type-directed fresh result (e.g. the builder closure's two lists of Vars)
         name = "user:" + str(f.key)
+        for x in args:
+            if isinstance(x, VMutRef) and isinstance(x.place[0], tuple) and x.place[0][0] == "heap":
+                # the closure may build anything on the shared state, leaving it well-formed (A_B);
+                # the variables it returns belong to this builder
+                use(I, "A_B")
+                cur = I.read_place(st, x.place)
+                if isinstance(cur, VRec) and cur.ty == inv.LOH:
+                    import contracts_lax
+                    I.write_place(st, x.place, contracts_lax.fresh_lax_oh(I, st, ("user", "builder-state", f.key)))
+                st.env[("heap", "builder")] = VMutRef(x.place)
         return [(st, inv.symbolic(I, st, e["ty"], name, wf=True), None)]
     return [(st, VUser(("user", "closure", f.key, tuple(repr(x)[:80] for x in args))), None)]
 
